@@ -19,11 +19,13 @@ package main
 //	   faults and crashes, followed by one more call that runs alone without faults (the probe).
 import (
 	"context"
+	"crypto"
 	"crypto/ecdsa"
 	"crypto/elliptic"
 	crand "crypto/rand"
 	"crypto/x509"
 	"encoding/json"
+	"encoding/pem"
 	"errors"
 	"fmt"
 	"math/rand"
@@ -58,6 +60,28 @@ type c20Action struct {
 	C int    `json:"c"`
 	F bool   `json:"f,omitempty"`
 	L bool   `json:"l,omitempty"` // step at a newAccount gate: the CA creates the account, the response is lost
+	P string `json:"p,omitempty"` // faulted step at a newOrder gate: which problem the CA answers (see c20OrderProblems; "": unauthorized/403)
+}
+
+// c20OrderProblems: what the CA may answer to newOrder (or, "fin-": accept the order and answer
+// this to finalize) while the account is perfectly alive. None of them says that the account is
+// gone, so none of them may make the client delete or replace its stored account.
+var c20OrderProblems = []string{"", "u401", "rl429", "mf400", "fin-u401", "fin-u403", "fin-rl429", "si500"}
+
+func c20Problem(p string) *mockca.Problem {
+	switch strings.TrimPrefix(p, "fin-") {
+	case "u401":
+		return mockca.Prob(401, "unauthorized", "injected CA error (401)")
+	case "u403":
+		return mockca.Prob(403, "unauthorized", "injected CA error (403)")
+	case "rl429":
+		return mockca.Prob(429, "rateLimited", "injected CA error: too many requests")
+	case "mf400":
+		return mockca.Prob(400, "malformed", "injected CA error: malformed")
+	case "si500":
+		return mockca.Prob(500, "serverInternal", "injected CA error: internal")
+	}
+	return mockca.Prob(403, "unauthorized", "injected CA error")
 }
 
 type c20HistIn struct {
@@ -148,7 +172,10 @@ type c20Arrival struct {
 	res      [2]int // configured-key mode: (registration, key) of the account returned
 }
 
-type c20Reply struct{ fault, crash, lost bool }
+type c20Reply struct {
+	fault, crash, lost bool
+	prob               string
+}
 
 type c20Env struct {
 	cas []*mockca.CA
@@ -197,6 +224,7 @@ type c20Thread struct {
 	gate  c20Arrival
 	reply chan c20Reply
 	last  int // index of the event whose value is completed at the next arrival (-1 none)
+	lastS int // index of the script entry of that event
 	res   [2]int
 	nops  int
 }
@@ -222,7 +250,65 @@ type c20Run struct {
 	kp     *c20KP
 	b0     [2]int // configured-key mode: the two files when the probe started
 	lost   map[[2]int]bool // (CA, request number): the response of this request is to be dropped
+	sticky map[int]*mockca.Problem // thread -> the answer to every further newOrder of its current operation (acmez retries a 5xx)
+	finFlt map[int]*mockca.Problem // thread -> the answer to its next finalize request
+	keyChk [2]string               // the first storage key / lock name that differs from the harness's own naming (recorded, not used)
 }
+
+// c20AcctKeys: the storage keys of the account files of (CA, contact), computed by the harness
+// itself from the layout the property names — acme/<ca>/users/<email>/<user>.json and .key, with
+// <ca> = host-port-path of the directory URL, "default" for a missing e-mail — and not asked of
+// certmagic's own key functions (which are only compared with it).
+func c20AcctKeys(caURL, email string) (reg, key string) {
+	issuer := caURL
+	if u, err := url.Parse(caURL); err == nil {
+		issuer = strings.ReplaceAll(u.Host, ":", "-")
+		if pth := strings.Trim(strings.ReplaceAll(u.Path, "/", "-"), "-"); pth != "" {
+			issuer += "-" + pth
+		}
+	}
+	email = strings.ToLower(email)
+	folder, user := email, email
+	if email == "" {
+		folder, user = "default", "default"
+	} else if at := strings.Index(email, "@"); at > 0 {
+		user = email[:at]
+	}
+	base := "acme/" + issuer + "/users/" + folder + "/" + user
+	return base + ".json", base + ".key"
+}
+
+// c20LockName: the name of the registration lock of a contact, by the harness's own reading.
+func c20LockName(email string) string {
+	if email == "" {
+		return "register_acme_account"
+	}
+	return "register_acme_account_" + email
+}
+
+// c20DecodeKey reads a stored private key with the standard library only (certmagic's own decoder
+// is not asked): a PEM block holding an EC, PKCS#8 or PKCS#1 key.
+func c20DecodeKey(b []byte) (crypto.Signer, error) {
+	blk, _ := pem.Decode(b)
+	if blk == nil {
+		return nil, errors.New("no PEM block")
+	}
+	if k, err := x509.ParseECPrivateKey(blk.Bytes); err == nil {
+		return k, nil
+	}
+	if k, err := x509.ParsePKCS8PrivateKey(blk.Bytes); err == nil {
+		if sg, ok := k.(crypto.Signer); ok {
+			return sg, nil
+		}
+	}
+	if k, err := x509.ParsePKCS1PrivateKey(blk.Bytes); err == nil {
+		return k, nil
+	}
+	return nil, errors.New("unknown private key encoding")
+}
+
+// the first disagreement between certmagic's storage key / lock names and the harness's own
+var c20NameBad string
 
 func c20AcctIdx(url string) int {
 	i := strings.LastIndex(url, "/acct/")
@@ -260,7 +346,7 @@ func (r *c20Run) fileVal(key string) int {
 		}
 		return c20AcctIdx(a.Location)
 	}
-	k, err := certmagic.PEMDecodePrivateKey(v)
+	k, err := c20DecodeKey(v)
 	if err != nil {
 		return 0
 	}
@@ -293,7 +379,17 @@ func (r *c20Run) storageHook(op *doubles.Op) error {
 	case "Load", "Store", "Delete":
 		kc, ok := r.keys[op.Key]
 		if !ok {
-			return fmt.Errorf("c20 harness: unexpected storage key %s %q", op.Kind, op.Key)
+			// not an account file of this history's CAs and contact by the harness's own naming:
+			// reported as an operation on a foreign account (CA 9), which no thread is entitled to touch
+			kc = [2]int{9, 0}
+			if strings.HasSuffix(op.Key, ".key") {
+				kc[1] = 1
+			}
+			r.mu.Lock()
+			if r.keyChk[0] == "" {
+				r.keyChk[0] = op.Key
+			}
+			r.mu.Unlock()
 		}
 		a.kc = kc[0]
 		switch {
@@ -317,6 +413,13 @@ func (r *c20Run) storageHook(op *doubles.Op) error {
 		a.kind = c20KList
 	case "Lock":
 		a.kind = c20KLock
+		if op.Key != r.lockNm {
+			r.mu.Lock()
+			if r.keyChk[1] == "" {
+				r.keyChk[1] = op.Key
+			}
+			r.mu.Unlock()
+		}
 	case "Unlock":
 		a.kind = c20KUnlock
 	default: // LockAcquired, anything else: not a gate
@@ -343,20 +446,45 @@ func (r *c20Run) caHook(c int) func(*mockca.Request) *mockca.Problem {
 			kind = c20KLookup
 		case q.Kind == "newOrder":
 			kind = c20KOrder
+		case q.Kind == "finalize":
+			r.mu.Lock()
+			p := r.finFlt[r.cur]
+			delete(r.finFlt, r.cur)
+			r.mu.Unlock()
+			return p
 		default:
 			return nil
 		}
 		r.mu.Lock()
 		t := r.cur
 		dead := r.dead[t]
+		st := r.sticky[t]
 		r.mu.Unlock()
 		if dead {
 			return mockca.Prob(403, "unauthorized", "instance crashed")
 		}
+		if kind == c20KOrder && st != nil {
+			return st // a retry of the request that was answered with a 5xx: same answer, no new gate
+		}
 		r.arrive <- c20Arrival{t: t, kind: kind, kc: c, reqSeq: q.Seq}
 		rep := <-r.ths[t].reply
-		if rep.crash || rep.fault {
-			return mockca.Prob(403, "unauthorized", "injected CA error")
+		if rep.crash {
+			return mockca.Prob(403, "unauthorized", "instance crashed")
+		}
+		if rep.fault {
+			pr := c20Problem(rep.prob)
+			if kind == c20KOrder && strings.HasPrefix(rep.prob, "fin-") {
+				r.mu.Lock()
+				r.finFlt[t] = pr // the order is accepted; its finalize request is refused
+				r.mu.Unlock()
+				return nil
+			}
+			if kind == c20KOrder && pr.Status >= 500 {
+				r.mu.Lock()
+				r.sticky[t] = pr
+				r.mu.Unlock()
+			}
+			return pr
 		}
 		if rep.lost {
 			r.mu.Lock()
@@ -450,6 +578,17 @@ func (r *c20Run) await(t int) error {
 		th := r.ths[t]
 		if th.last >= 0 {
 			ev := &r.events[th.last]
+			if ev.Fault && ev.Kind == c20KOrder && strings.HasPrefix(r.script[th.lastS].P, "fin-") {
+				// the problem was to be injected at finalize, but the CA itself refused the order
+				// (the account is gone): no fault was injected after all
+				if q := r.env.cas[ev.KC].Requests()[th.gate.reqSeq]; q.Status != 201 {
+					ev.Fault = false
+					r.script[th.lastS].F, r.script[th.lastS].P = false, ""
+					r.mu.Lock()
+					delete(r.finFlt, t)
+					r.mu.Unlock()
+				}
+			}
 			if !ev.Fault {
 				switch ev.Kind {
 				case c20KStoreReg, c20KStoreKey:
@@ -506,7 +645,7 @@ func c20RunHist(env *c20Env, email string, cas []int, choose c20Chooser, maxStep
 	}
 	certmagic.VerifAccountResetDiscoveredEmail()
 	r := &c20Run{env: env, b: doubles.NewMemBackend(), email: email, arrive: make(chan c20Arrival), dead: map[int]bool{}, cur: -1, holder: -1,
-		keys: map[string][2]int{}, held: map[string]int{}, lost: map[[2]int]bool{}}
+		keys: map[string][2]int{}, held: map[string]int{}, lost: map[[2]int]bool{}, sticky: map[int]*mockca.Problem{}, finFlt: map[int]*mockca.Problem{}}
 	if kpIn != nil {
 		// configured-account-key mode: one key, its account at the production CA (or not), and
 		// the two account files in one of their nine initial conditions
@@ -522,7 +661,7 @@ func c20RunHist(env *c20Env, email string, cas []int, choose c20Chooser, maxStep
 				return nil, nil, fmt.Errorf("c20 harness: pre-registered account is %s, expected %s", a.URL, kp.loc)
 			}
 		}
-		_, kp.regKey, kp.keyKey = certmagic.VerifUserKeys(ca.URL, email)
+		kp.regKey, kp.keyKey = c20AcctKeys(ca.URL, email)
 		switch kpIn.Reg0 {
 		case 1:
 			js, _ := json.Marshal(acme.Account{Status: "valid", Contact: []string{"mailto:" + email}, Location: kp.loc})
@@ -542,9 +681,13 @@ func c20RunHist(env *c20Env, email string, cas []int, choose c20Chooser, maxStep
 		r.kp = kp
 	}
 	for c, ca := range env.cas {
-		_, reg, key := certmagic.VerifUserKeys(ca.URL, email)
+		reg, key := c20AcctKeys(ca.URL, email)
 		r.keys[reg] = [2]int{c, 0}
 		r.keys[key] = [2]int{c, 1}
+		// certmagic's own answers are only recorded
+		if _, creg, ckey := certmagic.VerifUserKeys(ca.URL, email); (creg != reg || ckey != key) && r.keyChk[0] == "" {
+			r.keyChk[0] = creg + " / " + ckey + " (certmagic) vs " + reg + " / " + key
+		}
 		ca.Hook = r.caHook(c)
 		c := c
 		ca.DropResponse = func(q *mockca.Request) bool {
@@ -557,7 +700,10 @@ func c20RunHist(env *c20Env, email string, cas []int, choose c20Chooser, maxStep
 	if email != "" {
 		contact.Contact = []string{"mailto:" + email}
 	}
-	r.lockNm = certmagic.VerifAccountRegLockKey(contact)
+	r.lockNm = c20LockName(email)
+	if nm := certmagic.VerifAccountRegLockKey(contact); nm != r.lockNm {
+		r.keyChk[1] = nm + " (certmagic) vs " + r.lockNm
+	}
 	r.b.Log.Hook = r.storageHook
 	for _, c := range cas {
 		r.ths = append(r.ths, &c20Thread{c: c, reply: make(chan c20Reply), last: -1})
@@ -619,6 +765,14 @@ func c20RunHist(env *c20Env, email string, cas []int, choose c20Chooser, maxStep
 				a.L = false
 				r.script[len(r.script)-1].L = false
 			}
+			if a.P != "" && (g.kind != c20KOrder || !a.F) {
+				a.P = ""
+				r.script[len(r.script)-1].P = ""
+			}
+			r.mu.Lock()
+			delete(r.sticky, a.T)
+			delete(r.finFlt, a.T)
+			r.mu.Unlock()
 			ev := c20Event{Tag: 1, T: a.T, Fault: a.F, Kind: g.kind, KC: g.kc}
 			if a.L {
 				ev.Tag = 4
@@ -649,12 +803,13 @@ func c20RunHist(env *c20Env, email string, cas []int, choose c20Chooser, maxStep
 			}
 			r.events = append(r.events, ev)
 			th.last = len(r.events) - 1
+			th.lastS = len(r.script) - 1
 			th.state = 1
 			th.nops++
 			r.mu.Lock()
 			r.cur = a.T
 			r.mu.Unlock()
-			th.reply <- c20Reply{fault: a.F, lost: a.L}
+			th.reply <- c20Reply{fault: a.F, lost: a.L, prob: a.P}
 			if err := r.await(a.T); err != nil {
 				return (err)
 			}
@@ -755,9 +910,16 @@ func c20RunHist(env *c20Env, email string, cas []int, choose c20Chooser, maxStep
 		}
 		r.script = r.script[:len(r.script)-len(r.events)+r.kp.split] // the probe's own steps are implied
 	}
+	if c20NameBad == "" {
+		if r.keyChk[0] != "" {
+			c20NameBad = "storage key: " + r.keyChk[0]
+		} else if r.keyChk[1] != "" {
+			c20NameBad = "lock name: " + r.keyChk[1]
+		}
+	}
 	fin := &c20Final{LockFree: len(r.b.HeldLocks()) == 0}
 	for c, ca := range env.cas {
-		_, reg, key := certmagic.VerifUserKeys(ca.URL, email)
+		reg, key := c20AcctKeys(ca.URL, email)
 		fin.CAs = append(fin.CAs, [3]int{len(ca.Accounts()), r.fileVal(reg), r.fileVal(key)})
 		_ = c
 	}
@@ -979,6 +1141,9 @@ func c20Random(rr *rand.Rand, sh c20Shape) c20Chooser {
 		if a.K == "step" && faults < sh.maxFaults && rr.Float64() < sh.pFault && ths[a.T].gate.kind != c20KUnlock {
 			a.F = true
 			faults++
+			if ths[a.T].gate.kind == c20KOrder {
+				a.P = c20OrderProblems[rr.Intn(len(c20OrderProblems)-1)] // not the 5xx one (acmez retries it with pauses)
+			}
 		} else if a.K == "step" && ths[a.T].gate.kind == c20KNewAcct && faults < sh.maxFaults && rr.Float64() < 3*sh.pFault {
 			a.L = true // the CA registers, the response is lost
 			faults++
@@ -1133,6 +1298,7 @@ func runC20(tier string, seed int64, outdir string, replay string) error {
 	env := c20NewEnv()
 	defer env.close()
 	c20RefHosts, c20RefBad = 0, ""
+	c20NameBad = ""
 
 	addHist := func(class string, email string, cas []int, choose c20Chooser, feats map[string]any) error {
 		if feats == nil {
@@ -1169,6 +1335,11 @@ func runC20(tier string, seed int64, outdir string, replay string) error {
 			}
 			if e.Tag == 1 && e.Kind == c20KLock {
 				nlock[e.T] = true
+			}
+		}
+		for _, a := range r.script {
+			if a.K == "step" && a.F && a.P != "" {
+				w.Hist("hist_order_problem=" + a.P)
 			}
 		}
 		desc := map[string]any{"kind": "hist", "class": class, "threads": len(cas), "email": email != "", "faults": nf, "crashes": nc, "resets": nr, "registrations": nreg, "lost_responses": nlost}
@@ -1427,7 +1598,7 @@ func runC20(tier string, seed int64, outdir string, replay string) error {
 		if caKnows {
 			loc = ca.AddAccount(key.Public(), []string{"mailto:" + email}).URL
 		}
-		_, regKey, keyKey := certmagic.VerifUserKeys(ca.URL, email)
+		regKey, keyKey := c20AcctKeys(ca.URL, email)
 		if keyPresent {
 			if keyMatches {
 				b.Put(keyKey, pemK)
@@ -1566,7 +1737,7 @@ func runC20(tier string, seed int64, outdir string, replay string) error {
 	for _, email := range []string{"a@example.com", ""} {
 		// f80e244: the test CA forgets its account; the production account must stay
 		if err := addHist("testca-account-missing", email, []int{0, 1, 1, 0},
-			c20Scripted(cat(one(St(0, 0)), rep(S(0), 9), one(St(1, 1)), rep(S(1), 9), one(Rs(1)), one(St(2, 1)), rep(S(2), 14), one(St(3, 0)))), nil); err != nil {
+			c20Scripted(cat(one(St(0, 0)), rep(S(0), 9), one(St(1, 1)), rep(S(1), 9), one(Rs(1)), one(St(2, 1)), rep(S(2), 17), one(St(3, 0)))), nil); err != nil {
 			return err
 		}
 		// 6e1a233: one instance, the CA was re-installed: exactly one new account, and it is used
@@ -1574,11 +1745,34 @@ func runC20(tier string, seed int64, outdir string, replay string) error {
 			c20Scripted(cat(one(St(0, 0)), rep(S(0), 9), one(Rs(0)), one(St(1, 0)))), map[string]any{"witness": "ca-reinstalled-single-instance"}); err != nil {
 			return err
 		}
-		// known: two issuances hold the account the CA forgot; the second deletes the account the first just recreated
+		// f8c5e31: two issuances hold the account the CA forgot; the second used to delete the account the
+		// first had just recreated and to register a third; now it finds the new account under the lock
+		stale2 := cat(one(St(0, 0)), rep(S(0), 9), one(St(1, 0)), rep(S(1), 2), one(St(2, 0)), rep(S(2), 2), one(Rs(0)))
 		if err := addHist("concurrent-recreate", email, []int{0, 0, 0},
-			c20Scripted(cat(one(St(0, 0)), rep(S(0), 9), one(St(1, 0)), rep(S(1), 2), one(St(2, 0)), rep(S(2), 2), one(Rs(0)), rep(S(1), 12), rep(S(2), 3))),
-			map[string]any{"witness": "two-stale-holders"}); err != nil {
+			c20Scripted(cat(stale2, rep(S(1), 15), rep(S(2), 8))), map[string]any{"witness": "two-stale-holders"}); err != nil {
 			return err
+		}
+		for i, sc := range [][]c20Action{
+			cat(stale2, one(S(1)), one(S(2)), rep(S(1), 6), rep(S(2), 6)),                     // both refused; 1 deletes and unlocks; 2 finds nothing; then both queue to register
+			cat(stale2, one(S(1)), one(S(2)), rep(S(2), 6), rep(S(1), 4), rep(S(2), 8)),       // ... the other one deletes; 1 compares while 2 registers
+			cat(stale2, rep(S(1), 5), one(S(2)), one(c20Action{K: "crash", T: 1}), rep(S(2), 6)), // 1 crashes between its two Deletes; 2 takes over the lock
+			cat(stale2, rep(S(1), 4), one(F(1)), one(S(1)), rep(S(2), 8)),                     // 1's Delete of the reg file fails; 2 deletes
+			cat(stale2, rep(S(1), 5), one(F(1)), one(S(1)), rep(S(2), 8)),                     // 1's Delete of the key file fails; 2 finds the reg file gone
+			cat(stale2, rep(S(1), 12), one(S(2)), one(c20Action{K: "crash", T: 1}), rep(S(2), 8)), // 1 crashes between the Stores of the new account
+			cat(stale2, rep(S(1), 2), one(F(1)), rep(S(2), 4), one(F(2))),                     // the compare-and-delete's own Loads fail
+		} {
+			if err := addHist("concurrent-recreate", email, []int{0, 0, 0}, c20Scripted(sc), map[string]any{"shape": "directed", "variant": i}); err != nil {
+				return err
+			}
+		}
+		// the CA answers newOrder (or finalize) with a problem that does not say the account is gone,
+		// while the account is stored and alive: nothing may be deleted or registered
+		for _, pb := range c20OrderProblems {
+			if err := addHist("order-problem", email, []int{0, 0, 0},
+				c20Scripted(cat(one(St(0, 0)), rep(S(0), 9), one(St(1, 0)), rep(S(1), 2), one(c20Action{K: "step", T: 1, F: true, P: pb}), one(St(2, 0)))),
+				map[string]any{"problem": pb}); err != nil {
+				return err
+			}
 		}
 		// all threads find nothing, then queue on the lock
 		for n := 2; n <= 5; n++ {
@@ -1612,19 +1806,20 @@ func runC20(tier string, seed int64, outdir string, replay string) error {
 	}
 
 	// the recreate path, systematically: account stored, CA re-installed, then one issuance with a
-	// fault at / a crash before each of its operations (LoadReg LoadKey newOrder DeleteReg DeleteKey
-	// LoadReg Lock LoadReg newAccount StoreReg StoreKey Unlock newOrder), then one more issuance
+	// fault at / a crash before each of its operations (LoadReg LoadKey newOrder Lock LoadReg LoadKey
+	// DeleteReg DeleteKey Unlock LoadReg Lock LoadReg newAccount StoreReg StoreKey Unlock newOrder),
+	// then one more issuance
 	for c := 0; c < 2; c++ {
-		for at := 0; at < 13; at++ {
+		for at := 0; at < 17; at++ {
 			for _, crash := range []bool{false, true} {
-				if tier != "thorough" && (at+c)%2 == 1 && !(at == 3 || at == 4) {
+				if tier != "thorough" && (at+c)%2 == 1 && !(at >= 3 && at <= 8) {
 					continue
 				}
 				sc := cat(one(St(0, c)), rep(S(0), 9), one(Rs(c)), one(St(1, c)), rep(S(1), at))
 				if crash {
 					sc = append(sc, c20Action{K: "crash", T: 1})
 				} else {
-					sc = append(sc, F(1))
+					sc = append(sc, c20Action{K: "step", T: 1, F: true, P: c20OrderProblems[(at+c)%(len(c20OrderProblems)-1)]})
 				}
 				if err := addHist("seq-recreate", "a@example.com", []int{c, c, c}, c20Scripted(sc), map[string]any{"shape": "directed", "at": at, "crash": crash}); err != nil {
 					return err
@@ -1850,6 +2045,7 @@ func runC20(tier string, seed int64, outdir string, replay string) error {
 
 	w.Meta.Oracles = append(w.Meta.Oracles, emit.OracleCheck{Name: "url.Parse yields a lower-case scheme (the rule compares it with \"https\" exactly) on every generated URL", OK: schemeLower, Detail: schemeBad})
 	w.Meta.Oracles = append(w.Meta.Oracles, emit.OracleCheck{Name: fmt.Sprintf("every host that SubjectIsInternal accepts is an internal address by the harness's independent reading (special-use names, loopback / private / link-local / unspecified addresses): %d host judgements", c20RefHosts), OK: c20RefBad == "", Detail: c20RefBad})
+	w.Meta.Oracles = append(w.Meta.Oracles, emit.OracleCheck{Name: "certmagic's names of the account files and of the registration lock are the ones the harness computes by itself (acme/<ca>/users/<email>/<user>.json|.key, register_acme_account[_<email>]); every storage operation on another key is reported as an operation on a foreign account", OK: c20NameBad == "", Detail: c20NameBad})
 	w.Meta.Rule = "histories: distinct wire lines with at least one registration and either two threads reaching the registration lock or a fault / crash / CA reset; URL cases: distinct (CA, TestCA, useTestCA) whose CA is not a plain https URL or whose test CA is in use; contact cases: at least one contact seen; account-key cases: each combination of stored key / stored registration / CA knowledge / e-mail; account-key histories: distinct wire lines with a fault, a crash, two or more calls, or a Store"
 	return nil
 }
